@@ -76,6 +76,9 @@ pub fn strategy(g: RxGen) -> BoxedStrategy<SpCase> {
                 choices.push((1, (1i16..4).prop_map(|dseq| Step::Peer(PeerOp::Fin { dseq })).boxed()));
             }
             if g.hostile {
+                // data numbered right after the peer's own FIN (only generated for the C04 classes that close early: the
+                // interesting state is the one in which the endpoint's own FIN is still unacknowledged)
+                if g.early_shutdown { choices.push((1, (0u8..2, 1u16..=maxp).prop_map(|(d, len)| Step::Peer(PeerOp::DataAfterFin { d, len })).boxed())); }
                 choices.push((1, (-3i16..6).prop_map(|dseq| Step::Peer(PeerOp::Fin { dseq })).boxed()));
             } else {
                 choices.push((1, Just(Step::Peer(PeerOp::Fin { dseq: 0 })).boxed()));
